@@ -96,6 +96,8 @@ type world struct {
 	deferred *hx.Failure
 }
 
+const sigReplay = "C12/forged-merged/cid-not-bound-to-block"
+
 const sigColVerify = "C12/right-key-rejected/collection-commit/doc-acp-lookup-by-empty-docid"
 
 func (w *world) logf(format string, args ...any) {
@@ -120,7 +122,7 @@ func authorOpts(c Case) func(i int) []node.Option {
 
 // absorb walks the closure of root in node n's blockstore and adds unseen blocks to the pool,
 // attributing them to the given signer.
-func (w *world) absorb(nodeIdx int, root cid.Cid, signer *Ident) {
+func (w *world) absorb(nodeIdx int, root cid.Cid, signer *Ident, op int) {
 	n := w.cl.Nodes[nodeIdx]
 	bs := datastore.BlockstoreFrom(n.DB.Rootstore())
 	var walk func(c cid.Cid, isSig bool)
@@ -135,7 +137,7 @@ func (w *world) absorb(nodeIdx int, root cid.Cid, signer *Ident) {
 		}
 		raw := append([]byte{}, b.RawData()...)
 		if isSig {
-			w.pool.add(c, raw, true, false)
+			w.pool.add(c, raw, true, false, fmt.Sprintf("signature-block-written-by-op%d", op))
 			return
 		}
 		blk, err := coreblock.GetFromBytes(raw)
@@ -149,7 +151,7 @@ func (w *world) absorb(nodeIdx int, root cid.Cid, signer *Ident) {
 		if blk.Signature != nil {
 			walk(blk.Signature.Cid, true)
 		}
-		w.pool.add(c, raw, false, false)
+		w.pool.add(c, raw, false, false, fmt.Sprintf("op%d/%s", op, describe(blk)))
 		w.signer[k] = signer
 		w.producer[k] = nodeIdx
 		// re-encoding must be the identity, else forged blocks would differ in more than the mutation
@@ -247,7 +249,7 @@ func (w *world) runOps() *hx.Failure {
 		got := w.cl.Collect(nodeIdx)
 		w.logf("op%d n%d %s doc%d %s signer=%s -> %d notifications", oi, nodeIdx, kind, doc, gqlInput(o.Fields, ""), sname, len(got))
 		for _, m := range got {
-			w.absorb(nodeIdx, m.CID(), signer)
+			w.absorb(nodeIdx, m.CID(), signer, oi)
 			if !bytes.Equal(m.Block, w.pool.raw[m.Cid]) {
 				return hx.Failf("C12/event-block-differs", "update event for %s carries bytes that differ from the stored block", m.Cid)
 			}
@@ -396,7 +398,7 @@ type recvTap struct {
 	sub       event.Subscription
 	mu        sync.Mutex
 	merges    []event.Merge
-	completes map[string]bool
+	completes map[string]int
 	sent      map[uint64]chan struct{}
 	seq       uint64
 }
@@ -406,7 +408,7 @@ func newRecvTap(n *hx.Node) *recvTap {
 	if err != nil {
 		hx.Harnessf("subscribe: %v", err)
 	}
-	t := &recvTap{bus: n.DB.Events(), sub: sub, completes: map[string]bool{}, sent: map[uint64]chan struct{}{}}
+	t := &recvTap{bus: n.DB.Events(), sub: sub, completes: map[string]int{}, sent: map[uint64]chan struct{}{}}
 	go func() {
 		for m := range sub.Message() {
 			switch d := m.Data.(type) {
@@ -416,7 +418,7 @@ func newRecvTap(n *hx.Node) *recvTap {
 				t.mu.Unlock()
 			case event.MergeComplete:
 				t.mu.Lock()
-				t.completes[d.Merge.Cid.String()] = true
+				t.completes[d.Merge.Cid.String()]++
 				t.mu.Unlock()
 			case uint64:
 				t.mu.Lock()
@@ -454,11 +456,13 @@ func (t *recvTap) takeMerges() []event.Merge {
 }
 
 // waitComplete waits for the MergeComplete event of cid (liveness only: a miss is never a verdict).
-func (t *recvTap) waitComplete(c string, d time.Duration) bool {
+func (t *recvTap) waitComplete(c string, d time.Duration) bool { return t.waitCompletes(c, 1, d) }
+
+func (t *recvTap) waitCompletes(c string, n int, d time.Duration) bool {
 	deadline := time.Now().Add(d)
 	for {
 		t.mu.Lock()
-		ok := t.completes[c]
+		ok := t.completes[c] >= n
 		t.mu.Unlock()
 		if ok {
 			return true
@@ -592,16 +596,16 @@ type snapshot struct {
 	cids    map[string]bool
 }
 
-func takeSnapshot(n *hx.Node) (snapshot, *hx.Failure) {
+func takeSnapshot(n *hx.Node, when string) (snapshot, *hx.Failure) {
 	var s snapshot
 	r := n.Exec(fmt.Sprintf(`query { Users(showDeleted: true) { %s } }`, docFields))
 	if !r.OK() {
-		return s, hx.Failf("C12/query-failed/docs", "document query failed: %s %s", r.Err(), r.Panic)
+		return s, hx.Failf("C12/query-failed/docs", "document query failed (%s): %s %s", when, r.Err(), r.Panic)
 	}
 	s.docs = strings.Join(hx.SortRows(r.Rows("Users")), "\n")
 	rc := n.Exec(commitsQuery)
 	if !rc.OK() {
-		return s, hx.Failf("C12/query-failed/commits", "commits query failed: %s %s", rc.Err(), rc.Panic)
+		return s, hx.Failf("C12/query-failed/commits", "commits query failed (%s): %s %s", when, rc.Err(), rc.Panic)
 	}
 	s.commits = strings.Join(hx.SortRows(rc.Rows("commits")), "\n")
 	s.cids = map[string]bool{}
@@ -678,7 +682,7 @@ func (w *world) pushHonest(r *receiver, m msgRec, where string) *hx.Failure {
 	}
 	e := evs[0]
 	if e.Cid.String() != m.Cid || e.DocID != m.DocID || e.CollectionID != m.CollectionID || e.ByPeer != peerID(w.c.Push.CreatorSeed+10) || e.FromPeer != peerID(w.c.Push.FromSeed) {
-		return hx.Failf("C12/merge-event-fields", "Merge event %+v does not match the request (cid %s doc %s col %s)", e, m.Cid, m.DocID, m.CollectionID)
+		return hx.Failf("C12/merge-event-fields", "Merge event {cid %s doc %s col %s by %s from %s} does not match the request (cid %s doc %s col %s)", e.Cid, e.DocID, e.CollectionID, e.ByPeer, e.FromPeer, m.Cid, m.DocID, m.CollectionID)
 	}
 	if !r.tap.waitComplete(m.Cid, mergeWait) {
 		// the asynchronous merge only logs failures: find out synchronously
@@ -700,19 +704,23 @@ func (w *world) checkHonestState(r *receiver, where string) *hx.Failure {
 			exp[x.cid] = true
 		}
 	}
-	snap, f := takeSnapshot(r.n)
+	snap, f := takeSnapshot(r.n, "on "+r.name+" after honest push "+where)
 	if f != nil {
 		return f
 	}
 	missing, extra := []string{}, []string{}
 	for k := range exp {
 		if !snap.cids[k] {
-			missing = append(missing, short(k)+"("+describe(w.pool.block(k))+")")
+			missing = append(missing, w.pool.name(k))
 		}
 	}
 	for k := range snap.cids {
 		if !exp[k] {
-			extra = append(extra, short(k))
+			if _, ok := w.pool.label[k]; ok {
+				extra = append(extra, w.pool.name(k))
+			} else {
+				extra = append(extra, k)
+			}
 		}
 	}
 	sort.Strings(missing)
@@ -787,6 +795,33 @@ func run(c Case, inf *info) *hx.Failure {
 	w := &world{c: c, inf: inf, pool: newPool(), signer: map[string]*Ident{}, producer: map[string]int{}, docIDs: map[int]string{}, deleted: map[int]bool{}}
 	w.cl = hx.NewCluster(len(c.Authors), sdl(c.Branchable), authorOpts(c))
 	defer w.cl.Close()
+	f := w.scenario()
+	if f == nil {
+		f = w.deferred
+	}
+	if f != nil {
+		f.Msg = w.anon(f.Msg)
+	}
+	return f
+}
+
+// anon replaces every cid the harness knows by a name that is the same in every run of the case, so
+// that failure messages are reproducible (rapid refuses to shrink otherwise).
+func (w *world) anon(s string) string {
+	keys := make([]string, 0, len(w.pool.label))
+	for k := range w.pool.label {
+		keys = append(keys, k)
+	}
+	sort.Strings(keys)
+	pairs := []string{}
+	for _, k := range keys {
+		pairs = append(pairs, k, "<"+w.pool.label[k]+">")
+	}
+	return strings.NewReplacer(pairs...).Replace(s)
+}
+
+func (w *world) scenario() *hx.Failure {
+	c, inf := w.c, w.inf
 	for range c.Authors {
 		w.has = append(w.has, map[int]bool{})
 		w.remote = append(w.remote, map[string]bool{})
@@ -953,7 +988,7 @@ func run(c Case, inf *info) *hx.Failure {
 	}
 	w.store(F, forgedP, true)
 	w.store(F, P.Cid, true)
-	before, f := takeSnapshot(F.n)
+	before, f := takeSnapshot(F.n, "before the forged push")
 	if f != nil {
 		return f
 	}
@@ -970,8 +1005,8 @@ func run(c Case, inf *info) *hx.Failure {
 	if err == nil {
 		// let the announced merge finish so that the report can say what it did
 		changed := ""
-		if len(evs) > 0 && F.tap.waitComplete(forgedP, 5*time.Second) {
-			after, _ := takeSnapshot(F.n)
+		if len(evs) > 0 && F.tap.waitComplete(forgedP, 2*time.Second) {
+			after, _ := takeSnapshot(F.n, "after accepted forged push")
 			changed = "; the merge completed and changed: " + before.changedParts(after)
 		}
 		return hx.Failf("C12/forged-accepted/"+where+"/"+kindClass, "push of a forged commit was accepted: %s of %s (%s) %d below the pushed block, independent verification of its attached signature fails; PushLog returned nil, %d Merge events%s\n%s",
@@ -979,9 +1014,9 @@ func run(c Case, inf *info) *hx.Failure {
 	}
 	w.logf("forged push rejected: %v", err)
 	if len(evs) > 0 {
-		return hx.Failf("C12/forged-merge-event/"+where, "PushLog returned %v for the forged commit but published Merge event %+v", err, evs[0])
+		return hx.Failf("C12/forged-merge-event/"+where, "PushLog returned %v for the forged commit but published a Merge event for cid %s", err, evs[0].Cid)
 	}
-	after, f := takeSnapshot(F.n)
+	after, f := takeSnapshot(F.n, "after the rejected forged push")
 	if f != nil {
 		return f
 	}
@@ -1008,8 +1043,15 @@ func run(c Case, inf *info) *hx.Failure {
 		}
 	}
 
+	replayStep := c.Push.Replay
+	if replayStep && c.AvoidKnown && rec.IsKnown(sigReplay) {
+		// search past the known finding: these cases follow up with the honest push instead
+		replayStep = false
+		c.Push.Post = true
+		inf.flag("avoided:second-request-under-forged-cid")
+	}
 	switch {
-	case c.Push.Replay:
+	case replayStep:
 		inf.flag("followup:honest-block-under-forged-cid")
 		return w.replay(F, P, forgedP, forgedT, before, kind, T.depth)
 	case c.Push.Post:
@@ -1034,33 +1076,52 @@ func (w *world) replay(F *receiver, P msgRec, forgedP, forgedT string, before sn
 	w.logf("second request (honest block %s, cid of forged %s): err=%v, %d Merge events", short(P.Cid), short(forgedP), err, len(evs))
 	named := false
 	for _, e := range evs {
-		done := F.tap.waitComplete(e.Cid.String(), 10*time.Second)
-		if forged[e.Cid.String()] {
-			named = true
-			if !done {
-				w.inf.flag("replay-merge-of-forged-cid-did-not-complete")
+		k := e.Cid.String()
+		if !forged[k] {
+			if !F.tap.waitComplete(k, mergeWait) {
+				hx.Harnessf("merge announced for honest %s did not complete", e.Cid)
 			}
-		} else if !done {
-			hx.Harnessf("merge announced for honest %s did not complete", e.Cid)
+			continue
+		}
+		named = true
+		// The asynchronous merge only logs a failure. Settle without a long wait: if it has not
+		// completed shortly, run the same merge synchronously; an error there is the error the
+		// asynchronous path hits too (same code, same input), success is only counted when the
+		// asynchronous path also reports completion.
+		if F.tap.waitComplete(k, 200*time.Millisecond) {
+			continue
+		}
+		if err := F.n.DB.VerifMerge(F.n.Ctx, e); err != nil {
+			w.inf.flag("replay-merge-of-forged-cid-fails")
+			w.logf("merge of the forged cid fails: %v", err)
+			continue
+		}
+		if !F.tap.waitCompletes(k, 2, 10*time.Second) {
+			w.inf.flag("replay-merge-of-forged-cid-unsettled")
+			w.logf("asynchronous merge of the forged cid did not report completion: nothing asserted")
+			return nil
 		}
 	}
-	after, f := takeSnapshot(F.n)
+	after, f := takeSnapshot(F.n, "after the second request")
 	if f != nil {
+		f.Msg += "\n" + w.history()
 		return f
 	}
 	inHistory := []string{}
 	for k := range after.cids {
 		if forged[k] {
-			inHistory = append(inHistory, short(k))
+			inHistory = append(inHistory, w.pool.name(k))
 		}
 	}
 	sort.Strings(inHistory)
 	if len(inHistory) > 0 {
-		how := "cid-not-bound-to-block"
-		if !named {
-			how = "other"
+		// diagnoser: the listed finding explains it only if the second request was accepted and the
+		// Merge event it published names the forged commit's cid
+		sig := "C12/forged-merged/other"
+		if named && err == nil {
+			sig = sigReplay
 		}
-		return hx.Failf("C12/forged-merged/"+how, "a forged commit (%s, depth %d) was first rejected, then merged: the second request carried the honest block %s but named cid %s (the rejected block, retained in the blockstore); PushLog returned %v, Merge events %d (forged cid named: %v); forged commits now in the receiver's history: %v; changed: %s\n%s",
+		return hx.Failf(sig, "a forged commit (%s, depth %d) was first rejected, then merged: the second request carried the honest block %s but named cid %s (the rejected block, retained in the blockstore); PushLog returned %v, Merge events %d (forged cid named: %v); forged commits now in the receiver's history: %v; changed: %s\n%s",
 			kind, depth, short(P.Cid), short(forgedP), err, len(evs), named, inHistory, before.changedParts(after), w.history())
 	}
 	for d := range w.docIDs {
